@@ -30,6 +30,14 @@ EXTRA_SQL = [
     "insert into t (a) select b from u", "create table t as select a from u", "select a from t union select b from u",
     "select * from t where exists (select 1 from u) and not exists (select 2 from v)",
     "select a from t where b between c and d having e > 1", "select -a, not b from t group by a, b",
+    # every optional list / clause present on its own (a clause must be visited whether or not its neighbours are there)
+    "select sum(a) over (order by c desc) from t", "select sum(a) over (partition by b) from t", "select row_number() over () from t",
+    "select rank() over (order by c, d desc), a from t order by e", "select a from t order by b", "select a from t group by b",
+    "select a from t having c > 1", "select a from t group by b having c > 1 order by d limit 1 offset 2", "select a from t limit 1",
+    "select a from t offset 2", "select distinct a from t where b = 1 order by c desc", "select 1",
+    "select a from t where b in (select c from u order by d) order by e", "with c as (select a from t order by b) select * from c order by a",
+    "select f(a order by b) from t", "select count(distinct a), max(b) from t having max(b) > 1",
+    "insert into t (a) select b from u where c = 1 order by d", "update t set a = 1", "delete from t",
 ]
 
 
